@@ -52,6 +52,9 @@ def main(tier):
                         b_['name'] = a['name']
                 if run.rng.random() < 0.15:
                     run.rng.choice(W['workloads'])['name'] = 'ingress-controller'      # a real workload with the synthetic pod's name
+                if len(W['workloads']) >= 2 and run.rng.random() < 0.5:
+                    a, b_ = run.rng.sample(W['workloads'], 2)
+                    b_['name'] = run.rng.choice(['x', 'asset-', 'a']) + a['name']     # one name is a proper suffix of another
                 dl = gen.docs(W)
                 d = h.dir_for('c%d' % cid)
                 gen.write_dir(d, [m for m, _ in dl])
@@ -62,7 +65,9 @@ def main(tier):
                 focuses = sorted(names)
                 if len(focuses) > 5:
                     focuses = run.rng.sample(focuses, 5)
-                focuses += [run.rng.choice(['nosuch', 'ns1/nosuch', 'w0x']), 'ingress-controller']
+                anyname = sorted(names)[0]
+                focuses += [run.rng.choice(['nosuch', 'ns1/nosuch', 'w0x']), 'ingress-controller',
+                            anyname[1:] if len(anyname) > 1 else 'zz', anyname[:-1] if len(anyname) > 1 else 'zz']   # proper suffix / prefix of a present name
                 cmds.append({'id': 'f%d' % cid, 'cmd': 'list', 'dir': d})
                 for f in focuses:
                     cmds.append({'id': '%d:%s' % (cid, f), 'cmd': 'list', 'dir': d, 'focus': f})
